@@ -45,13 +45,18 @@ Relevant(c) == (c.malformed # "none" => Closed(c))    \* one defect at a time
 (* second configuration applied over a valid first one: upstream renamed / location re-pointed *)
 Seconds == {"none", "rename_upstream", "swap_locations", "drop_compress", "add_location"}
 
+(* a second location exists that some server does not list yet *)
+CanAddLocation(c) == Len(c.locs) = 2 /\ \E i \in DOMAIN c.servers : c.servers[i].locs = <<"l1">>
+
 VARIABLE l
 
 EmitInit ==
   /\ l = 0
   /\ LET Q == SetToSeq({c \in Configs : Relevant(c)})
      IN ndJsonSerialize(IOEnv.OUT, [i \in 1..Len(Q) |->
-            Q[i] @@ [second |-> IF MayAccept(Q[i]) THEN SetToSeq(Seconds)[(i % 5) + 1] ELSE "none",
+            Q[i] @@ [second |-> IF ~MayAccept(Q[i]) THEN "none"
+                                ELSE IF CanAddLocation(Q[i]) /\ i % 2 = 0 THEN "add_location"
+                                ELSE SetToSeq(Seconds \ {"add_location"})[(i % 4) + 1],
                      history |-> MayAccept(Q[i]) /\ i % 3 = 0]])
 EmitNext == FALSE /\ l' = l
 
@@ -64,6 +69,8 @@ Obs == ndJsonDeserialize(IOEnv.OBS)
 Ok(o) ==
   LET c == o.case IN
   /\ o.accepted => MayAccept(c)
+  /\ MayAccept(c) => o.accepted        \* (not demanded by the property; guards the cases against vacuity: a closed, well-formed
+                                       \*  configuration of this universe is one pike accepts)
   /\ o.accepted => (\A i \in DOMAIN o.probes : o.probes[i] = "ok")
   /\ o.accepted => o.roundtrip
   /\ (o.accepted /\ c.history) => o.historyOk
